@@ -253,6 +253,32 @@ def run(ctx):
         ctx.fail("C12.R4", "name-extension", nm.file, nm.node.lineno, nm.qual,
                  "the truncated-name extension is no longer guarded by len(name) >= 15, a "
                  "non-empty cmdline and basename(cmdline[0]).startswith(name)")
+    # the extension is a nicety: when cmdline() is denied or the process is a zombie
+    # (its cmdline is empty and the platform raises ZombieProcess) name() still answers
+    # with the kernel's (truncated) name
+    from ..core.astutil import enclosing_trys
+    cl = [c for c in ast.walk(nm.node) if isinstance(c, ast.Call) and isinstance(c.func, ast.Attribute)
+          and c.func.attr == "cmdline" and dotted(c.func.value) == "self"]
+    okh = bool(cl)
+    missing = set()
+    for c in cl:
+        st_ = next(s_ for s_ in ast.walk(nm.node) if isinstance(s_, ast.stmt)
+                   and not isinstance(s_, (ast.Try, ast.If, ast.For, ast.While, ast.With,
+                                           ast.FunctionDef, ast.AsyncFunctionDef))
+                   and any(x is c for x in ast.walk(s_)))
+        for cls_ in ("AccessDenied", "ZombieProcess"):
+            if not any(handler_catches(h, [cls_]) for t_ in enclosing_trys(nm.node, st_)
+                       for h in t_.handlers):
+                okh = False
+                missing.add(cls_)
+    if okh:
+        ctx.ok("C12.R4", "name:cmdline-unavailable", sample="self.cmdline() in try/except "
+               "(AccessDenied, ZombieProcess): the kernel name is returned")
+    else:
+        ctx.fail("C12.R4", "name:cmdline-unavailable", nm.file, nm.node.lineno, nm.qual,
+                 f"name() consults cmdline() without absorbing {sorted(missing) or 'its failures'}: "
+                 f"for a zombie (or a denied cmdline) with a 15-character name it raises "
+                 f"instead of returning the kernel's name")
     ex = repo.func("psutil", "Process.exe")
     writes = []
     for fi in repo.all_funcs("psutil"):
